@@ -478,7 +478,14 @@ func (g *Gen) Edit(s *Sch, maxTables int) string {
 		if len(t.Cols) >= 7 {
 			return ""
 		}
-		t.Cols = append(t.Cols, g.newCol(t))
+		// Anywhere after the first column: an in-place ADD COLUMN appends physically, so the
+		// physical order of the table then differs from the declared order.
+		c := g.newCol(t)
+		at := 1 + g.T.Draw("add-column-position", len(t.Cols))
+		if at < len(t.Cols) {
+			g.use("column-added-in-the-middle")
+		}
+		t.Cols = append(t.Cols[:at:at], append([]*Col{c}, t.Cols[at:]...)...)
 	case "add-generated-column":
 		c := g.newGenCol(t)
 		if c == nil || len(t.Cols) >= 7 {
